@@ -42,6 +42,11 @@
 (*                       the repair was checked here before the Go patch.  *)
 (* NoStaleInstall excludes loads registered inside such a window            *)
 (* (`inWindow`); NoWindowInstall states the full requirement.               *)
+(*   FailClears = "any"  : a load that ended with an error removes whatever *)
+(*                          in-flight record is registered, not only its   *)
+(*                          own -> NoOverlap violated (a change seeded in   *)
+(*                          round 8; TLC's counterexample is replayed on   *)
+(*                          the real cache as a directed schedule)         *)
 (*   StaleCancels = TRUE  : evicting a node that is no longer current      *)
 (*                          clears the in-flight load -> NoDrop violated   *)
 (*                          (code before fix 7dd53de)                      *)
@@ -55,6 +60,7 @@ CONSTANTS Getters,      \* processes calling Get (load on miss)
           Outcomes,     \* subset of {"val", "err", "nf", "panic"}
           Preload,      \* TRUE: the key holds a value (50) initially
           Expected, StaleCancels,
+          FailClears,   \* "own": a load that failed removes its own in-flight record only (the code); "any": whatever record is registered
           RegLocked     \* TRUE: the in-flight record is registered inside the key's table computation (under the bucket lock)
 
 Nil == 0
@@ -101,7 +107,7 @@ begin
            correct := (infl = self) /\ CASE Expected = "none" -> TRUE
                                            [] Expected = "live" -> val = Nil \/ val = seen[self]
                                            [] OTHER -> val = seen[self];
-           if infl = self then infl := Nil; end if;
+           if infl = self \/ (FailClears = "any" /\ outcome \in {"err", "panic"}) then infl := Nil; end if;
            if correct /\ outcome = "nf" then
               if val # Nil then touched := [p \in Getters \cup Refreshers |-> TRUE]; end if;
               val := Nil;
@@ -233,7 +239,7 @@ install(self) == /\ pc[self] = "install"
                  /\ correct' = [correct EXCEPT ![self] = (infl = self) /\ CASE Expected = "none" -> TRUE
                                                                               [] Expected = "live" -> val = Nil \/ val = seen[self]
                                                                               [] OTHER -> val = seen[self]]
-                 /\ IF infl = self
+                 /\ IF infl = self \/ (FailClears = "any" /\ outcome[self] \in {"err", "panic"})
                        THEN /\ infl' = Nil
                        ELSE /\ TRUE
                             /\ infl' = infl
